@@ -136,7 +136,8 @@ package domain
 //@   property C11
 //@   ensures res != nil && fresh(res) && res.Path == path && len(res.SupportedBy) == 0 && res.RoutingDecision == nil && res.ModelCapabilities == nil && res.ModelName == ""
 
-//@ interface InferenceProfile.GetConfig
+//@ interface InferenceProfile.GetConfig()
+//@   ensures res != nil ==> res.API.OpenAICompatible == oaiDeclared(ghost(self).forName)
 
 // ---- C10: filter configuration predicates
 //@ func (fc *FilterConfig) IsEmpty
